@@ -24,7 +24,7 @@ Init == /\ prog = <<>> /\ dim = [s \in Slots |-> -1]
         /\ phase = "setup" /\ cur = "none" /\ focus = 1 /\ nd = 0 /\ rk = "op"
 \* (Init is evaluated once per TLC run: the per-history random draws are made by this first step)
 Setup == /\ phase = "setup" /\ phase' = "op"
-         /\ anchor' = Mat([s \in 1..3 |-> Mat([i \in 1..MaxDim |-> RE(-1..1)])])
+         /\ anchor' = Mat([s \in 1..3 |-> Mat([i \in 1..(MaxDim + 2) |-> RE(-1..1)])])
          /\ nd' \in {RE(0..3)} /\ rk' \in {IF "chain" \in OpSet THEN "chain" ELSE RE({"op", "op", "twin"})}
          /\ UNCHANGED <<prog, dim, cur, focus>>
 Alive(s) == dim[s] >= 0
